@@ -151,6 +151,24 @@ func histValidators(seed uint64, steps int, mode replicaMode) ([]string, int) {
 	sensitive := 0
 	bonded := map[int]bool{1: true, 2: true, 3: true}
 	for s := 0; s < steps; s++ {
+		if s == steps/2 {
+			// a long retention window is filled, then cut down by much more than one entry, and blocks go on: what is left
+			// of the history afterwards may not depend on whether a replica rebuilt its keepers in between
+			w.setParams(func(p *opchildtypes.Params) { p.HistoricalEntries = 9 }, "params")
+			alive := true
+			for b := 0; b < 11 && alive; b++ {
+				alive = w.endBlock()
+			}
+			if alive {
+				w.setParams(func(p *opchildtypes.Params) { p.HistoricalEntries = 2 }, "params")
+				for b := 0; b < 4 && alive; b++ {
+					alive = w.endBlock()
+				}
+			}
+			if !alive {
+				return t.Lines, sensitive
+			}
+		}
 		switch x := rng.Intn(100); {
 		case x < 30:
 			// add a burst of validators
